@@ -27,7 +27,12 @@ search:         oracles written from the property text, independent of the Coq m
                     radius grow, below shrink (band 2*gOffset/(Vm*dG_v) + 1e-6 exempt; clamped Rcrit:
                     only 'above grows'; no driving force: nothing grows);
                 (2) GE loop: per GE index the first two-phase entry, sentinel otherwise;
-                (3) backend sampling on Al-Zr and Cu-Ti (pycalphad): DG(x_alpha(g)) within the offset of
+                    Runs include non-isothermal binary schedules (heating, quench, hold after the jump, heating
+                    then cooling; closed-form backends and Al-Zr): a lookup table further than maxTempChange from
+                    the current temperature is NOT exempt.
+                (3) backend sampling on Al-Zr and Cu-Ti (pycalphad), as query SEQUENCES over several temperatures
+                    (and back) on ONE long-lived object per driving-force method with the default
+                    removeCache=False: DG(x_alpha(g)) within the offset of
                     g, bisection root of DG(x) = g against getInterfacialComposition, DG increasing in x,
                     sign change at the solvus, x_alpha increasing in g, sentinel monotone, the four
                     driving-force methods (sign; value to the offset for stoichiometric Al3Zr).
@@ -702,7 +707,13 @@ def run_config(cfg):
             m = PrecipitateModel(phases=['AL3ZR'], elements=['ZR'])
             m.setPBMParameters(cMin=1e-10, cMax=1e-8, bins=75, minBins=50, maxBins=100)
             m.setInitialComposition(cfg.get('x0', 4e-3))
-            m.setTemperature(cfg.get('T', 723.15))
+            T = cfg.get('T', 723.15)
+            if isinstance(T, (list, tuple)):
+                m.setTemperature(list(T[0]), list(T[1]))
+            else:
+                m.setTemperature(T)
+            if cfg.get('constraints'):
+                m.setConstraints(**cfg['constraints'])
             m.setInterfacialEnergy(cfg.get('gamma', 0.1))
             a = 0.405e-9
             m.setVolumeAlpha(a ** 3, VolumeParameter.ATOMIC_VOLUME, 4)
@@ -753,7 +764,11 @@ def run_config(cfg):
                 d = {'Rc': float(mm.pData.Rcrit[n, p]), 'dGv': float(mm.pData.drivingForce[n, p]),
                      'growth': np.array(mm.growth[p], dtype=float).copy(), 'R': np.array(mm.PBM[p].PSDbounds, dtype=float).copy(),
                      'rdfi': int(mm.RdrivingForceIndex[p]) if binary else -1, 'vmb': float(pp.volume.Vm), 'rmin': float(pp.Rmin),
-                     'psd': np.array(mm.PBM[p].PSD, dtype=float).copy(), 'dTemp': float(getattr(mm, 'dTemp', 0.0)) if binary else 0.0}
+                     'psd': np.array(mm.PBM[p].PSD, dtype=float).copy(),
+                     # temperature the binary lookup table in use was computed at, relative to the current temperature
+                     'lag': (float(mm.pData.temperature[n] - mm._lookupTemp) if getattr(mm, '_lookupTemp', None) is not None
+                             else float(getattr(mm, 'dTemp', 0.0))) if binary else 0.0,
+                     'maxTC': float(mm.constraints.maxTempChange)}
                 if binary:
                     d['A'] = np.array(mm.PSDXalpha[p][:, 0], dtype=float).copy()
                     d['B'] = np.array(mm.PSDXbeta[p][:, 0], dtype=float).copy()
@@ -798,8 +813,14 @@ def trace_oracle(m, rec, off):
             valid &= np.arange(len(R)) > d['rdfi']
             if not np.any(d['A'] != 0) or np.any(d['A'][d['rdfi'] + 1:] == -1):
                 continue
-            if abs(d['dTemp']) > 0:
-                continue            # table computed at another temperature (C13 bounds the lag)
+            if 0 < abs(d['lag']) <= d['maxTC']:
+                continue            # table computed within maxTempChange of the current temperature: the lag the user allowed
+                                    # (C13); a table further away than that is NOT exempt - it is what makes Rcrit and the
+                                    # growth sign disagree after a temperature change
+        stale = ''
+        if binary and abs(d['lag']) > d['maxTC']:
+            stale = ', lookup table of another temperature'
+        note = (' [interfacial compositions tabulated %g K away from the current temperature %g K, maxTempChange %g]' % (d['lag'], rec['T'], d['maxTC'])) if stale else ''
         if d['dGv'] > 0 and d['Rc'] > 0:
             band = 2 * off / (d['vmb'] * d['dGv']) + 1e-6
             rel = (R - d['Rc']) / d['Rc']
@@ -808,21 +829,32 @@ def trace_oracle(m, rec, off):
             bad = np.where(above & ~(g > 0))[0]
             if len(bad):
                 k = int(bad[0])
-                out.append((clause, site, 'above Rcrit shrinks', 'step %d phase %d: class boundary R = %r above Rcrit = %r has growth rate %r (dG_v %r)' % (rec['n'], p, float(R[k]), d['Rc'], float(g[k]), d['dGv'])))
+                out.append((clause, site, 'above Rcrit shrinks' + stale, 'step %d phase %d: class boundary R = %r above Rcrit = %r has growth rate %r (dG_v %r)' % (rec['n'], p, float(R[k]), d['Rc'], float(g[k]), d['dGv']) + note))
             clamped = d['Rc'] <= d['rmin'] * (1 + 1e-12)
             bad = np.where(below & ~(g < 0))[0]
             if len(bad) and not clamped:
                 k = int(bad[-1])
-                out.append((clause, site, 'below Rcrit grows', 'step %d phase %d: class boundary R = %r below Rcrit = %r has growth rate %r (dG_v %r)' % (rec['n'], p, float(R[k]), d['Rc'], float(g[k]), d['dGv'])))
+                out.append((clause, site, 'below Rcrit grows' + stale, 'step %d phase %d: class boundary R = %r below Rcrit = %r has growth rate %r (dG_v %r)' % (rec['n'], p, float(R[k]), d['Rc'], float(g[k]), d['dGv']) + note))
         elif d['dGv'] < 0:
             bad = np.where(valid & (g > 0))[0]
             if len(bad):
                 k = int(bad[0])
-                out.append((clause, site, 'grows without driving force', 'step %d phase %d: driving force %r < 0 but class boundary R = %r grows at %r' % (rec['n'], p, d['dGv'], float(R[k]), float(g[k]))))
+                out.append((clause, site, 'grows without driving force' + stale, 'step %d phase %d: driving force %r < 0 but class boundary R = %r grows at %r' % (rec['n'], p, d['dGv'], float(R[k]), float(g[k])) + note))
     return out
 
 
-def trace_terms(m, rec, therm_off):
+def class_subset(R, Rc, full):
+    """size classes shipped to Coq for one recorded step: all of them (thorough) or every fourth one plus the eight
+    around the critical radius (quick; every class is computed independently of the others, parsing the exact
+    literals dominates the cost)"""
+    n = len(R)
+    if full or n <= 24:
+        return list(range(n))
+    k = int(np.searchsorted(R, Rc)) if Rc > 0 else 0
+    return sorted(set(range(0, n, 4)) | set(i for i in range(k - 4, k + 4) if 0 <= i < n) | {n - 1})
+
+
+def trace_terms(m, rec, therm_off, full=True):
     """Coq terms that recompute the recorded growth from what kawin used (one per phase)"""
     terms = []
     binary = m.numberOfElements == 1
@@ -832,7 +864,7 @@ def trace_terms(m, rec, therm_off):
         with quiet():
             kin = np.atleast_1d(pp.shapeFactor.kineticFactor(R)) * np.ones(len(R))
         if binary:
-            if d['rdfi'] + 1 >= len(R) or len(d['A']) != len(R) or abs(d['dTemp']) > 0:
+            if d['rdfi'] + 1 >= len(R) or len(d['A']) != len(R):
                 continue
             x = rec['x'][0]
             vma, vmb = float(m.matrixParameters.volume.Vm), d['vmb']
@@ -844,6 +876,10 @@ def trace_terms(m, rec, therm_off):
                   'kin': fl(kin), 'R': fl(R)}
             if not bin_ok(im):
                 continue
+            sel = class_subset(R, d['Rc'], full)
+            for k in ('A', 'B', 'S', 'growth', 'eps', 'kin', 'R'):
+                im[k] = [im[k][i] for i in sel]
+            im['rdfi'] = 0            # the guard RdrivingForceIndex + 1 < len was checked above on the full table
             terms.append(('bin', p, bin_term(x, D, im)))
         else:
             c = d.get('call')
@@ -854,9 +890,11 @@ def trace_terms(m, rec, therm_off):
                 s = np.atleast_1d(pp.computeStrainEnergyFromR(R)) * np.ones(len(R))
                 ar = pp.shapeFactor.aspectRatio(d['Rc'])
                 ns = float(np.squeeze(pp.strainEnergy.compute(pp.shapeFactor.description.normalRadii(ar))))
+            sel = class_subset(R, d['Rc'], full)
+            sub = lambda a: [float(np.ravel(a)[i]) for i in sel]
             terms.append(('multi', p, 'chk_multi %s %s %s %s %s %s %s %s %s %s %s %s %s' % (
                 RT, qlit(c['mc']), qlit(d['vmb']), qlit(pp.gamma), qlit(d['dGv']), qlit(ns), qlit(c['dG']),
-                qlist(kin), qlist(R), qlist(f), qlist(s), qlist(c['gExtra']), qlist(d['growth']))))
+                qlist(sub(kin)), qlist(sub(R)), qlist(sub(f)), qlist(sub(s)), qlist(sub(c['gExtra'])), qlist(sub(d['growth'])))))
     return terms
 
 
@@ -865,6 +903,13 @@ def quick_configs():
         {'name': 'dilute-isothermal', 'backend': 'dilute', 'off': 1.0, 'tf': 40.0, 'maxsteps': 1500},
         {'name': 'regular-strain-needle', 'backend': 'regular', 'off': 0.0, 'strain': 3e7, 'shape': 'needle', 'ar': 2.0, 'vratio': 0.95, 'tf': 40.0, 'maxsteps': 1200},
         {'name': 'dilute-ramp', 'backend': 'dilute', 'off': 1.0, 'T': ([0, 0.004, 0.02, 1], [700, 700, 760, 760]), 'constraints': {'maxTempChange': 0.0}, 'tf': 80.0, 'maxsteps': 1500},
+        # non-isothermal binary runs: quench, hold after the jump, heating followed by cooling; maxTempChange = 0 makes the
+        # table follow every temperature change (no allowed lag), the default (1 K) exempts only tables within 1 K
+        {'name': 'dilute-quench', 'backend': 'dilute', 'off': 1.0, 'T': ([0, 0.004, 0.0045, 1], [760, 760, 700, 700]), 'constraints': {'maxTempChange': 0.0}, 'tf': 60.0, 'maxsteps': 1500},
+        {'name': 'dilute-quench-default-lag', 'backend': 'dilute', 'off': 1.0, 'T': ([0, 0.003, 0.0032, 1], [750, 750, 690, 690]), 'tf': 50.0, 'maxsteps': 1200},
+        {'name': 'regular-heat-cool', 'backend': 'regular', 'off': 0.0, 'T': ([0, 0.002, 0.006, 0.012, 1], [700, 700, 740, 690, 690]), 'constraints': {'maxTempChange': 0.0}, 'tf': 70.0, 'maxsteps': 1500},
+        {'name': 'alzr-quench', 'backend': 'alzr', 'T': ([0, 0.02 / 3600, 0.021 / 3600, 1], [773.15, 773.15, 673.15, 673.15]), 'constraints': {'maxTempChange': 0.0}, 'tf': 0.1, 'maxsteps': 400},
+        {'name': 'alzr-heat-hold', 'backend': 'alzr', 'T': ([0, 1.0 / 3600, 9.0 / 3600, 1], [715.15, 715.15, 723.15, 723.15]), 'constraints': {'maxTempChange': 0.0}, 'tf': 20.0, 'maxsteps': 400},
         {'name': 'dilute-two-phases-rk4', 'backend': 'dilute', 'off': 1.0, 'phases': ['B1', 'B3'], 'gammas': [0.15, 0.16], 'iterator': 'rk4', 'tf': 5.0, 'maxsteps': 500},
         {'name': 'ternary', 'backend': 'ternary', 'tf': 2e3, 'maxsteps': 1200},
         {'name': 'ternary-strain-plate', 'backend': 'ternary', 'strain': 4e7, 'shape': 'plate', 'ar': 3.0, 'tf': 2e3, 'maxsteps': 1200},
@@ -902,11 +947,13 @@ def random_config(rng, k):
 
 # ==========================================================================================
 # (e) backend sampling (pycalphad): the premises of the binary theorems and the remaining clauses
-def sample_backend(ctx, quick):
+def sample_backend(ctx, quick, plan=None):
     from kawin.thermo import BinaryThermodynamics
     from kawin.tests.datasets import ALZR_TDB
     hits = []
-    rng = ctx.rng
+    # plan (replay of a reported case): the same system, the same temperature sequence on one object per method, the same
+    # Gibbs-Thomson energies at the last temperature
+    rng = ctx.rng if plan is None else np.random.Generator(np.random.PCG64(0))
     systems = [('Al-Zr', lambda meth: BinaryThermodynamics(ALZR_TDB, ['AL', 'ZR'], ['FCC_A1', 'AL3ZR'], drivingForceMethod=meth), None,
                 (550., 900.), 16000., True),
                ('Cu-Ti', lambda meth: BinaryThermodynamics(os.path.join(REPO, 'examples', 'CuTi.tdb'), ['CU', 'TI'], ['FCC_A1', 'CU4TI'], drivingForceMethod=meth), 0.15,
@@ -915,18 +962,37 @@ def sample_backend(ctx, quick):
     ng = 14 if quick else 40
     stats = {'consistency': 0, 'bisection': 0, 'monotone_x': 0, 'solvus_sign': 0, 'xalpha_monotone': 0, 'sentinel': 0, 'methods': 0}
     for name, mk, guess, (Tlo, Thi), gmax, stoich in systems:
+        if plan is not None and plan['system'] != name:
+            continue
         with quiet():
             th = mk('tangent')
             if guess is not None:
                 th.setGuessComposition(guess)
         off = float(th.gOffset)
-        for T in [float(np.round(t, 1)) for t in rng.uniform(Tlo, Thi, nT)]:
+        # ONE object per method for the whole temperature sequence, queried with the default removeCache=False: whatever a
+        # method keeps between calls (composition sets, sampled precipitate points) must not leak from one temperature into the next
+        objs = {'tangent': th}
+        for meth in ('approximate', 'sampling', 'curvature'):
+            with quiet():
+                objs[meth] = mk(meth)
+                if guess is not None:
+                    objs[meth].setGuessComposition(guess)
+        # one temperature from each nT-th of the range, in random order: consecutive queries differ by tens of kelvin
+        Ts = [float(np.round(Tlo + (i + rng.uniform(0.1, 0.9)) * (Thi - Tlo) / nT, 1)) for i in rng.permutation(nT)]
+        Ts = Ts + [Ts[0]]                       # ... and back to the first temperature
+        if plan is not None:
+            Ts = [float(t) for t in plan['Ts']]
+        history = []
+        for T in Ts:
+            history.append(T)
             g = np.concatenate(([0.0], np.sort(np.round(rng.uniform(0, gmax, ng - 1), 2))))
+            if plan is not None and len(history) == len(Ts):
+                g = np.array(plan['g'], dtype=float)
             with quiet():
                 xa, xb = th.getInterfacialComposition(T, g.copy())
             xa, xb = np.atleast_1d(xa).astype(float), np.atleast_1d(xb).astype(float)
             st = xa != -1
-            case = {'system': name, 'T': T, 'g': fl(g)}
+            case = {'system': name, 'T': T, 'g': fl(g), 'temperatures_queried_on_the_same_objects': list(history)}
             ctx.count(case, bool(np.sum(st) >= 2))
             ctx.hist('backend', name)
             # sentinel monotone: once unstable, unstable for every larger g ; matrix and precipitate agree
@@ -999,14 +1065,12 @@ def sample_backend(ctx, quick):
                     hits.append(('dg_sign_at_solvus', SITE_TH, 'sign', dict(case, x=float(xv), dg=float(dv), solvus=float(xsol)),
                                  '%s T=%g: solvus %r, DG(x=%r) = %r' % (name, T, xsol, xv, dv)))
                     break
-            # the four methods: sign away from the solvus, value to the offset for a stoichiometric precipitate
+            # the four methods: sign away from the solvus, value to the offset for a stoichiometric precipitate; every method
+            # is asked on its own long-lived object, in sequence over the temperatures (default removeCache=False)
             vals = {'tangent': dd}
             for meth in ('approximate', 'sampling', 'curvature'):
                 with quiet():
-                    t2 = mk(meth)
-                    if guess is not None:
-                        t2.setGuessComposition(guess)
-                    v2, _ = t2.getDrivingForce(xx, T * np.ones(len(xx)))
+                    v2, _ = objs[meth].getDrivingForce(xx, T * np.ones(len(xx)))
                 vals[meth] = np.atleast_1d(v2).astype(float)
             stats['methods'] += 3 * len(xx)
             far = np.abs(dd) > 5 * off + 5
@@ -1015,11 +1079,30 @@ def sample_backend(ctx, quick):
                 if np.any(far & (np.sign(v2) != np.sign(dd))):
                     k = int(np.argmax(far & (np.sign(v2) != np.sign(dd))))
                     hits.append(('methods_agree', SITE_TH, 'sign ' + meth, dict(case, x=float(xx[k]), tangent=float(dd[k]), other=float(v2[k])),
-                                 '%s T=%g x=%r: tangent %r, %s %r' % (name, T, xx[k], dd[k], meth, v2[k])))
-                if stoich and meth != 'curvature' and np.any(np.abs(v2 - dd) > 2 * off + 1e-3 * np.abs(dd)):
-                    k = int(np.argmax(np.abs(v2 - dd) > 2 * off + 1e-3 * np.abs(dd)))
+                                 '%s T=%g (temperatures so far %r) x=%r (solvus %r): tangent %r, %s %r' % (name, T, history, float(xx[k]), float(xsol), float(dd[k]), meth, float(v2[k]))))
+                # value: approximate and sampling everywhere, curvature where it is documented to fall back to sampling
+                # (below the solvus; above it is a first-order estimate)
+                where = np.ones(len(xx), dtype=bool) if meth != 'curvature' else (xx < 0.98 * xsol)
+                badv = where & (np.abs(v2 - dd) > 2 * off + 1e-3 * np.abs(dd))
+                if stoich and np.any(badv):
+                    k = int(np.argmax(badv))
                     hits.append(('methods_agree', SITE_TH, 'value ' + meth, dict(case, x=float(xx[k]), tangent=float(dd[k]), other=float(v2[k])),
-                                 '%s T=%g x=%r: tangent %r, %s %r (offset %g)' % (name, T, xx[k], dd[k], meth, v2[k], off)))
+                                 '%s T=%g (temperatures so far %r) x=%r: tangent %r, %s %r (offset %g)' % (name, T, history, float(xx[k]), float(dd[k]), meth, float(v2[k]), off)))
+            # DG(x_alpha(g)) = g to the offset, for the other methods too (stoichiometric precipitate)
+            if stoich:
+                sel = sorted(set([0] + [int(i) for i in rng.choice(len(gs), min(len(gs), 3), replace=False)]))
+                for meth in ('approximate', 'sampling'):
+                    with quiet():
+                        dm, _ = objs[meth].getDrivingForce(xs[sel], T * np.ones(len(sel)))
+                    dm = np.atleast_1d(dm).astype(float)
+                    stats['consistency'] += len(sel)
+                    dev = dm - gs[sel]
+                    badc = (dev < -2 * off - 0.05 - 1e-6 * gs[sel]) | (dev > 2 * off + 0.05 + 1e-6 * gs[sel])
+                    if np.any(badc):
+                        k = int(np.argmax(badc))
+                        hits.append(('backend_consistency', SITE_TH, 'driving force at x_alpha(g), ' + meth,
+                                     dict(case, method=meth, g=float(gs[sel][k]), xalpha=float(xs[sel][k]), dg=float(dm[k])),
+                                     '%s T=%g (temperatures so far %r): x_alpha(g=%g) = %r but the %s driving force there is %r (offset %g)' % (name, T, history, float(gs[sel][k]), float(xs[sel][k]), meth, float(dm[k]), off)))
     ctx.notes['backend_sampling'] = stats
     return hits
 
@@ -1171,7 +1254,7 @@ def run_traces(ctx, cfgs, label, sample_every):
                 all_hits.append((cfg, rec['n'], clause, site, cls, msg))
         idx = list(range(0, len(steps), max(1, len(steps) // sample_every)))[:sample_every + 2]
         for i in idx:
-            for (kind, p, t) in trace_terms(m, steps[i], off):
+            for (kind, p, t) in trace_terms(m, steps[i], off, full=not ctx.quick):
                 terms.append(t)
                 owners.append((cfg, steps[i]['n'], kind, p))
         ctx.notes.setdefault('runs', []).append({'name': cfg['name'], 'steps': len(steps), 'oracle_hits': nh, 'wall_s': round(time.time() - t0, 1)})
@@ -1233,9 +1316,12 @@ def run(ctx):
                        'driving force / an unstable class.  Trace cases: every recorded step of runs on closed-form binary and ternary backends, Al-Zr and '
                        'Ni-Cr-Al; non-trivial = positive driving force with growing and shrinking classes; distinct by hash of (run, step, composition, Rcrit). '
                        'Backend cases: (system, T, g grid) on Al-Zr and Cu-Ti; non-trivial = at least two stable g.')
+    tm = {}
+    t0 = time.time()
     axioms, failed = ctx.prove(['C12/Properties.v'])
     if not quick and not failed:
         coqchk(ctx)
+    tm['prove'] = round(time.time() - t0, 1)
 
     # ---- corpus first
     corp = corpus_items()
@@ -1248,7 +1334,10 @@ def run(ctx):
     cases += [gen_ge_case(ctx.rng) for _ in range(nge)]
     for k in ('curv', 'gt', 'nb', 'lk'):
         cases += [UNIT[k][0](ctx.rng) for _ in range(nother if k != 'lk' else nother // 2)]
+    t0 = time.time()
     dis_u, hits_u = eval_unit(ctx, cases, 'main')
+    tm['unit'] = round(time.time() - t0, 1)
+    t0 = time.time()
     # ---- runs
     cfgs = quick_configs()
     if not quick:
@@ -1256,11 +1345,15 @@ def run(ctx):
             c['maxsteps'] = c['maxsteps'] * 4
             c['tf'] = c['tf'] * 20
         cfgs += [random_config(ctx.rng, k) for k in range(24)]
-    h2, d2 = run_traces(ctx, cfgs, 'main', 8 if quick else 20)
+    h2, d2 = run_traces(ctx, cfgs, 'main', 5 if quick else 20)
     hits_t += h2
     dis_t += d2
+    tm['runs'] = round(time.time() - t0, 1)
     # ---- backend sampling
+    t0 = time.time()
     hits_b = sample_backend(ctx, quick)
+    tm['backend'] = round(time.time() - t0, 1)
+    ctx.notes['phase_wall_s'] = tm
 
     found = bool(hits_u or hits_t or hits_b)
     if (failed or dis_u or dis_t) and not found:
@@ -1296,7 +1389,7 @@ def run(ctx):
         'positive supersaturation denominator Vm_alpha x_beta / Vm_beta - x_alpha and positive effective diffusion distance (supersaturation < 1); kinetic factor, diffusivity, mc > 0',
         'shape, strain and kinetic factors of kawin and the effective diffusion distance are oracles: their values are shipped to the model',
         'binary64 rounding is not modelled: outputs compared with relative tolerance 2^-36 of the summed magnitudes (2^-48 for exact dyadic inputs); the GE loop and the lookup bookkeeping are compared exactly',
-        'binary lookup tables computed at a temperature other than the current one (|dTemp| > 0, bounded by C13) are exempt from the trace oracle; runs with ramps use maxTempChange = 0',
+        'binary lookup tables computed at another temperature than the current one are exempt from the trace oracle only while the difference is within constraints.maxTempChange (the lag the user allows, C13); non-isothermal runs (heating, quench, hold after a jump, heating then cooling; closed-form backends and Al-Zr) use maxTempChange = 0 and one uses the default 1 K',
         'lookup table with no stable size class (argmax of an all-False mask) is excluded: repaired by a pending commit of property C03']
     ctx.cov['trusted_base'] += ['Coq 8.16.1 kernel and vm_compute', 'hand-written model coq/C12/Model.v + correspondence drivers coq/C12/Corr.v, harness/c12.py',
                                 'float -> Q transport (float.as_integer_ratio) and output parser in harness/common.py',
@@ -1322,7 +1415,11 @@ def replay(ctx, obj):
             print('replay: model/implementation disagreement:', d[3])
         bad = len(hits) + len(dis)
     elif kind == 'backend':
-        hits = sample_backend(ctx, True)
+        inp = obj.get('input', {})
+        plan = None
+        if 'temperatures_queried_on_the_same_objects' in inp:
+            plan = {'system': inp['system'], 'Ts': inp['temperatures_queried_on_the_same_objects'], 'g': inp['g']}
+        hits = sample_backend(ctx, True, plan)
         for h in hits:
             print('replay:', h[0], h[4])
         bad = len(hits)
